@@ -253,3 +253,141 @@ theorem deltaFn_perm (T W : Int) {ns₁ ns₂ : List Node} (h : ns₁.Perm ns₂
   simp only [h1, h2, h3, h4]
 
 end KoordVerif.C02
+
+namespace KoordVerif.C02
+
+/-! ### one round, and the whole iteration, commute with permutations of the sibling list -/
+
+theorem addDeltas_eq_map (ps : List (Node × Int)) (f : Node → Int) :
+    addDeltas ps ((ps.map (·.1)).map f) = ps.map (fun p => (p.1, p.2 + f p.1)) := by
+  induction ps with
+  | nil => simp [addDeltas]
+  | cons p ps ih =>
+    simp only [List.map_cons, addDeltas]
+    rw [ih]
+
+def PairNamesNodup (ps : List (Node × Int)) : Prop := NamesNodup (ps.map (·.1))
+
+theorem round_eq_map (T W : Int) (ps : List (Node × Int)) (hnd : PairNamesNodup ps) :
+    addDeltas ps (hamilton T W (ps.map (·.1))) =
+      ps.map (fun p => (p.1, p.2 + deltaFn T W (ps.map (·.1)) p.1)) := by
+  rw [hamilton_eq_map T W _ hnd, addDeltas_eq_map]
+
+theorem round_perm (T W : Int) {ps₁ ps₂ : List (Node × Int)} (h : ps₁.Perm ps₂) (hnd : PairNamesNodup ps₁) :
+    (addDeltas ps₁ (hamilton T W (ps₁.map (·.1)))).Perm (addDeltas ps₂ (hamilton T W (ps₂.map (·.1)))) := by
+  have hnd2 : PairNamesNodup ps₂ := by
+    unfold PairNamesNodup NamesNodup at *
+    exact (((h.map (·.1)).map (·.name)).nodup_iff).mp hnd
+  rw [round_eq_map T W ps₁ hnd, round_eq_map T W ps₂ hnd2, deltaFn_perm T W (h.map (·.1))]
+  exact h.map _
+
+theorem pairNames_of_perm {ps₁ ps₂ : List (Node × Int)} (h : ps₁.Perm ps₂) (hnd : PairNamesNodup ps₁) :
+    PairNamesNodup ps₂ := by
+  unfold PairNamesNodup NamesNodup at *
+  exact (((h.map (·.1)).map (·.name)).nodup_iff).mp hnd
+
+theorem pairNames_sublist {ps qs : List (Node × Int)} (h : qs.Sublist ps) (hnd : PairNamesNodup ps) :
+    PairNamesNodup qs := by
+  unfold PairNamesNodup NamesNodup at *
+  exact List.Nodup.sublist ((h.map (·.1)).map (·.name)) hnd
+
+theorem round_names (T W : Int) (ps : List (Node × Int)) (hnd : PairNamesNodup ps) :
+    PairNamesNodup (addDeltas ps (hamilton T W (ps.map (·.1)))) := by
+  unfold PairNamesNodup at *
+  rw [addDeltas_nodes ps _ (round_len T W ps)]
+  exact hnd
+
+theorem runtimeSum_perm {l₁ l₂ : List (Node × Int)} (h : l₁.Perm l₂) : runtimeSum l₁ = runtimeSum l₂ :=
+  perm_sum_int (h.map _)
+
+theorem weightSum_perm {l₁ l₂ : List (Node × Int)} (h : l₁.Perm l₂) : weightSum l₁ = weightSum l₂ :=
+  perm_sum_int (h.map _)
+
+theorem surplus_perm {l₁ l₂ : List (Node × Int)} (h : l₁.Perm l₂) : surplusOf l₁ = surplusOf l₂ := by
+  unfold surplusOf cappedOf
+  exact perm_sum_int ((h.filter _).map _)
+
+/-- the iteration's result does not depend on the order in which the siblings are presented. -/
+theorem iter_perm (fuel : Nat) (T W : Int) {ps₁ ps₂ : List (Node × Int)} (h : ps₁.Perm ps₂)
+    (hnd : PairNamesNodup ps₁) :
+    (iter fuel T W ps₁).1.Perm (iter fuel T W ps₂).1 ∧ (iter fuel T W ps₁).2 = (iter fuel T W ps₂).2 := by
+  induction fuel generalizing T W ps₁ ps₂ with
+  | zero => simp [iter, h]
+  | succ fuel ih =>
+    have hnil : (ps₁ = []) ↔ (ps₂ = []) := by
+      constructor
+      · intro e; subst e; exact List.Perm.eq_nil h.symm
+      · intro e; subst e; exact List.Perm.eq_nil h
+    unfold iter
+    by_cases hc : W ≤ 0 ∨ T ≤ 0 ∨ ps₁ = []
+    · have hc2 : W ≤ 0 ∨ T ≤ 0 ∨ ps₂ = [] := by
+        rcases hc with a | a | a
+        · exact Or.inl a
+        · exact Or.inr (Or.inl a)
+        · exact Or.inr (Or.inr (hnil.mp a))
+      rw [if_pos hc, if_pos hc2]; exact ⟨h, rfl⟩
+    · have hc2 : ¬ (W ≤ 0 ∨ T ≤ 0 ∨ ps₂ = []) := by
+        intro a; apply hc
+        rcases a with a | a | a
+        · exact Or.inl a
+        · exact Or.inr (Or.inl a)
+        · exact Or.inr (Or.inr (hnil.mpr a))
+      rw [if_neg hc, if_neg hc2]
+      simp only []
+      have hr := round_perm T W h hnd
+      have hrn := round_names T W ps₁ hnd
+      generalize addDeltas ps₁ (hamilton T W (ps₁.map (·.1))) = n₁ at *
+      generalize addDeltas ps₂ (hamilton T W (ps₂.map (·.1))) = n₂ at *
+      have hstill : (stillOf n₁).Perm (stillOf n₂) := hr.filter _
+      have hcap : (cappedOf n₁).Perm (cappedOf n₂) := hr.filter _
+      have hdone : ((cappedOf n₁).map (fun p => (p.1, p.1.request))).Perm ((cappedOf n₂).map (fun p => (p.1, p.1.request))) :=
+        hcap.map _
+      have hsur := surplus_perm hr
+      have hws := weightSum_perm hstill
+      have hsn : (stillOf n₁ = []) ↔ (stillOf n₂ = []) := by
+        constructor
+        · intro e; rw [e] at hstill; exact List.Perm.eq_nil hstill.symm
+        · intro e; rw [e] at hstill; exact List.Perm.eq_nil hstill
+      have hstillnd : PairNamesNodup (stillOf n₁) := pairNames_sublist List.filter_sublist hrn
+      by_cases hb : surplusOf n₁ > 0 ∧ stillOf n₁ ≠ []
+      · have hb2 : surplusOf n₂ > 0 ∧ stillOf n₂ ≠ [] := ⟨by omega, fun e => hb.2 (hsn.mpr e)⟩
+        rw [if_pos hb, if_pos hb2]
+        have := ih (surplusOf n₁) (weightSum (stillOf n₁)) hstill hstillnd
+        rw [← hsur, ← hws]
+        exact ⟨hdone.append this.1, this.2⟩
+      · have hb2 : ¬ (surplusOf n₂ > 0 ∧ stillOf n₂ ≠ []) := by
+          intro a; apply hb
+          exact ⟨by omega, fun e => a.2 (hsn.mp e)⟩
+        rw [if_neg hb, if_neg hb2]
+        exact ⟨hdone.append hstill, hsur⟩
+
+theorem redistributeN_perm (total : Int) {ns₁ ns₂ : List Node} (h : ns₁.Perm ns₂) (hnd : NamesNodup ns₁) :
+    (redistributeN total ns₁).1.Perm (redistributeN total ns₂).1 ∧
+    (redistributeN total ns₁).2 = (redistributeN total ns₂).2 := by
+  unfold redistributeN
+  simp only []
+  have hinit : (initAll ns₁).Perm (initAll ns₂) := h.map _
+  have hsum := runtimeSum_perm hinit
+  have hadj : ((initAll ns₁).filter (fun p => needAdjust p.1)).Perm ((initAll ns₂).filter (fun p => needAdjust p.1)) :=
+    hinit.filter _
+  have hrest : ((initAll ns₁).filter (fun p => !needAdjust p.1)).Perm ((initAll ns₂).filter (fun p => !needAdjust p.1)) :=
+    hinit.filter _
+  have hadjnd : PairNamesNodup ((initAll ns₁).filter (fun p => needAdjust p.1)) := by
+    apply pairNames_sublist List.filter_sublist
+    unfold PairNamesNodup
+    have : (initAll ns₁).map (·.1) = ns₁ := by
+      unfold initAll; rw [List.map_map]; simp [Function.comp_def]
+    rw [this]; exact hnd
+  rw [← hsum]
+  by_cases hp : total - runtimeSum (initAll ns₁) > 0
+  · rw [if_pos hp, if_pos hp]
+    have hlen := hadj.length_eq
+    have hw := weightSum_perm hadj
+    rw [← hlen, ← hw]
+    have := iter_perm ((initAll ns₁).filter (fun p => needAdjust p.1)).length (total - runtimeSum (initAll ns₁))
+      (weightSum ((initAll ns₁).filter (fun p => needAdjust p.1))) hadj hadjnd
+    exact ⟨hrest.append this.1, this.2⟩
+  · rw [if_neg hp, if_neg hp]
+    exact ⟨hrest.append hadj, rfl⟩
+
+end KoordVerif.C02
